@@ -68,6 +68,12 @@ def c02(tier):
         for n in ((6, 7, 8, 16, 33, 100) if tier == "quick" else (5, 6, 7, 8, 13, 16, 33, 64, 100, 257)):
             big.append({"cfg": {"k": k, "n": n}, "unit": 1, "mode": "window", "eps": [1, 1000000000], "float": "f64",
                         "xs": shapes(rnd, n, -40, 40, max(3 * n, 300) if tier == "quick" else 3000), "k": 1})
+    for k in kinds:
+        big.append({"cfg": {"k": k, "n": 300}, "unit": 1, "mode": "window", "eps": [1, 1000000000], "float": "f64",
+                    "xs": shapes(rnd, 300, -40, 40, 1000), "k": 7, "extras": k == "WelfordOnline"})
+    for n in (3, 16, 100):
+        big.append({"cfg": {"k": "WelfordOnline", "n": n}, "unit": 1, "mode": "window", "eps": [1, 1000000000], "float": "f64",
+                    "xs": shapes(rnd, n, -40, 40, 300), "k": 1, "extras": True})
     run.submit(p3_stream_job, "w-big", "C02", big)
     # decimal unit: same definitions on inputs k/10 (not exactly representable): the statement allows rounding noise
     # proportional to the magnitude; sqrt-type outputs amplify 1e-16 to 1e-8, hence 1e-6 here (C16's figure)
@@ -271,6 +277,13 @@ def c04(tier):
         for cfg in (ema(n), {"k": "Ema", "n": n, "alpha": [1, 1]}, {"k": "Alma", "n": n}, {"k": "Alma", "n": n, "sigma": [3, 1], "offset": [1, 2]}, sma(n)):
             st.append({"cfg": cfg, "unit": 10, "mode": "window" if cfg["k"] != "Ema" else "machine", "eps": [1, 100000000], "float": "f64",
                        "xs": shapes(rnd, n, -500, 500, 400 if tier == "quick" else 1500), "k": 1})
+    # every window length up to 40 (and a few beyond) for the O(1) recurrences, a spread of lengths for the O(N) kernels
+    for n in list(range(6, 41)) + [64, 100, 128, 256]:
+        if n != 21:
+            st.append({"cfg": ema(n), "unit": 10, "mode": "machine", "eps": [1, 100000000], "float": "f64", "xs": shapes(rnd, min(n, 30), -500, 500, 120), "k": 1})
+    for n in (6, 8, 10, 13, 16, 34):
+        for cfg in ({"k": "Alma", "n": n}, sma(n)):
+            st.append({"cfg": cfg, "unit": 10, "mode": "window", "eps": [1, 100000000], "float": "f64", "xs": shapes(rnd, n, -500, 500, 150), "k": 1})
     run.submit(p3_stream_job, "avg-big", "C04", st)
     # interval clause on streams of wide dynamic range (large values, then more than a window nine decades smaller)
     iv = []
@@ -794,8 +807,12 @@ def c16(tier):
     n32 = 2000 if tier == "quick" else 10000
     long_streams = []
     for k, mode in (("Sma", "window"), ("Cumulative", "window"), ("Alma", "window"), ("Rsi", "window"), ("MyRSI", "window"),
-                    ("WelfordOnline", "window"), ("WelfordRolling", "rolling"), ("Min", "window"), ("HLNormalizer", "window"), ("Vsct", "window")):
+                    ("WelfordOnline", "window"), ("WelfordRolling", "rolling"), ("Min", "window"), ("HLNormalizer", "window"), ("Vsct", "window"),
+                    ("CenterOfGravity", "window"), ("CorrelationTrendIndicator", "window"), ("Roc", "window"), ("Vst", "window"),
+                    ("NoiseEliminationTechnology", "window"), ("BinaryEntropy", "window"), ("Max", "window")):
         for n in ((5, 16) if tier == "quick" else (3, 16, 64)):
+            if k in ("CenterOfGravity", "CorrelationTrendIndicator", "Roc", "Vst", "NoiseEliminationTechnology", "BinaryEntropy", "Max") and tier == "quick" and n == 5:
+                continue
             cfg = {"k": k} if k == "WelfordRolling" else {"k": k, "n": n}
             # values k/1000, 10 <= k <= 10000 in multiples of 10: non-zero magnitudes and non-zero steps both span three decades
             long_streams.append({"cfg": cfg, "unit": 1000, "mode": mode, "eps": [1, 1000000], "float": "f64",
@@ -875,7 +892,7 @@ def c09(tier):
     rnd = random.Random(99 + run.seed)
     n = 20000 if tier == "quick" else 400000
     k = 100 if tier == "quick" else 1000
-    ns = [1, 2, 3, 4, 5, 7, 9, 12, 16, 64] if tier == "quick" else list(range(1, 13)) + [16, 32, 64]
+    ns = [1, 2, 3, 4, 5, 7, 9, 12, 16, 64, 128, 256] if tier == "quick" else list(range(1, 13)) + [16, 32, 64, 128, 200, 256, 512]
     lag = [{"k": "LaguerreFilter", "g": g} for g in ([0, 1], [1, 2], [9, 10])]
     progs = []; meta = []
     def add(cfg, kind, xa, xb=None, unit=10, maxabs=1000, tailabs=None):
@@ -887,8 +904,10 @@ def c09(tier):
         if tailabs is not None:
             m["tailabs"] = tailabs
         meta.append(m)
-    H = 4000
-    for cfg in [c for nn in ns for c in c09_views(nn)] + lag:
+    for nn, cfg in [(nn, c) for nn in ns for c in c09_views(nn)] + [(1, c) for c in lag]:
+        # "converge geometrically": the rate is the view's own (about 2/N per step for the slowest); the common tail is long enough
+        # for the slowest documented rate to bring a past nine decades louder below 1e-9 of the tail's scale
+        H = max(4000, 30 * nn)
         add(cfg, "bounded", [1000 if i % 2 else -1000 for i in range(n)])                       # Nyquist
         add(cfg, "bounded", [1000] * (n // 2) + [-1000] * (n // 2))                                # constant, then a step
         add(cfg, "bounded", [rnd.randint(-1000, 1000) for _ in range(n)])                          # noise
